@@ -13,6 +13,7 @@ package iterdrv
 
 import (
 	"encoding/json"
+	"errors"
 	"fmt"
 
 	"github.com/fogfish/golem/trait/pair"
@@ -402,13 +403,21 @@ type stepObs struct {
 	K2 int    `json:"k2"`
 }
 
+// postObs: v = Value() of the exhausted iterator, or panic = true (then v = 0); {false, 0} when nil / not probed
+type postObs struct {
+	Panic bool `json:"panic"`
+	V     item `json:"v"`
+}
+
+func (p postObs) eq(o postObs) bool { return p.Panic == o.Panic && (p.Panic || p.V.eq(o.V)) }
+
 // observation of one construction + the documented loop `for has := s != nil; has; has = s.Next() { s.Value() }`
 type observation struct {
 	Nil       bool      `json:"nil"`
 	Cc        []call    `json:"cc"`
 	Steps     []stepObs `json:"steps"`
-	Post      []any     `json:"post"`      // [Value()] of the exhausted iterator, ["panic"] when that panics; [] when nil or not probed
-	PostPanic string    `json:"postpanic"` // the panic of the probe (nobody promises it does not)
+	Post      postObs   `json:"post"`      // Value() of the exhausted iterator (nobody promises anything about it)
+	PostPanic string    `json:"postpanic"` // the panic of that probe
 	Truncated bool      `json:"truncated"` // gave up after `limit` steps
 	Panic     string    `json:"panic"`     // the library panicked while constructing / draining
 	SrcOK     bool      `json:"srcok"`
@@ -431,7 +440,7 @@ func recovered(r any) string {
 
 func observe(kind string, e *Expr, limit int) (o observation) {
 	v := &env{}
-	o.Cc, o.Steps, o.Post = []call{}, []stepObs{}, []any{}
+	o.Cc, o.Steps, o.Post = []call{}, []stepObs{}, postObs{V: item{0}}
 	var c cursor
 	func() {
 		defer func() {
@@ -460,11 +469,11 @@ func observe(kind string, e *Expr, limit int) (o observation) {
 			defer func() {
 				if r := recover(); r != nil {
 					o.PostPanic = recovered(r)
-					o.Post = []any{"panic"}
+					o.Post = postObs{Panic: true, V: item{0}}
 				}
 			}()
 			it, _ := c.value()
-			o.Post = []any{it}
+			o.Post = postObs{V: it}
 		}()
 	}
 	return o
@@ -474,7 +483,7 @@ func observe(kind string, e *Expr, limit int) (o observation) {
 type forEachObs struct {
 	K       int    `json:"k"`
 	Visited []item `json:"visited"`
-	Err     string `json:"err"` // "same": the callback's error came back; "nil"; "other"
+	Err     string `json:"err"` // "same": the callback's error came back (possibly wrapped); "nil"; "other"
 	Panic   string `json:"panic"`
 	SrcOK   bool   `json:"srcok"`
 }
@@ -514,7 +523,7 @@ func forEach(kind string, e *Expr, k, limit int) (o forEachObs) {
 		switch {
 		case err == nil:
 			o.Err = "nil"
-		case err == mine:
+		case errors.Is(err, mine):
 			o.Err = "same"
 		default:
 			o.Err = "other"
